@@ -4,7 +4,7 @@ from __future__ import annotations
 from hypothesis import strategies as st
 
 from vf import model, reflit, spec_tables as T
-from vf.core import Failure, call_guard
+from vf.core import Failure, call_guard, weighted
 from vf.cut import compile_text, compile_ssbs, decompile, decompile_ssbs
 
 ID = "C04"
@@ -44,7 +44,7 @@ indented_lines_text = st.lists(st.tuples(st.integers(1, 3), _calm_text).map(lamb
 _plain_text = st.text(alphabet=st.characters(codec="utf-8", exclude_categories=("Cs", "Cc")), max_size=8)
 # a carriage return anywhere leaves the string without an exact literal (known finding F-C04-3): generated, but rarely
 _cr_text = st.tuples(nasty_text, st.sampled_from(["\r", "\r\n", "\n\r"]), nasty_text).map("".join)
-any_text = st.one_of([nasty_text] * 6 + [lines_text] * 6 + [indented_lines_text] * 4 + [_plain_text] * 4 + [_cr_text])
+any_text = weighted((6, nasty_text), (6, lines_text), (4, indented_lines_text), (4, _plain_text), (1, _cr_text))
 
 
 def value_strategy():
@@ -57,7 +57,7 @@ def value_strategy():
     lang = st.lists(st.tuples(st.sampled_from(LANGS), any_text), min_size=1, max_size=5, unique_by=lambda t: t[0]).map(lambda l: {"t": "lang", "v": [list(x) for x in l]})
     pos = st.tuples(st.sampled_from(["m0", "m1", "Mark_2", "pos"]), st.integers(-5, 300), st.sampled_from([0, 0, 2, 4]), st.integers(-5, 300), st.sampled_from([0, 0, 2, 4])).map(
         lambda t: {"t": "pos", "name": t[0], "x": t[1], "xo": t[2], "y": t[3], "yo": t[4]})
-    return st.one_of(ints.map(lambda v: {"t": "int", "v": v}), fixed_float, fixed_str, const, string, string, string, lang, lang, pos)
+    return weighted((1, ints.map(lambda v: {"t": "int", "v": v})), (1, fixed_float), (1, fixed_str), (1, const), (3, string), (2, lang), (1, pos))
 
 
 def literal_strategy():
@@ -76,14 +76,14 @@ def literal_strategy():
     single = st.tuples(st.sampled_from(["'", '"']), st.lists(piece, max_size=10)).map(lambda t: {"lit": "single", "q": t[0], "parts": t[1]})
     mline = st.sampled_from(["", "a", "  b", "x  ", "    ", " ", "'q'", '"', "\\n", "c d", "      deep", "''", '""'])
     multi = st.tuples(st.sampled_from(["'''", '"""']), st.lists(mline, min_size=1, max_size=6)).map(lambda t: {"lit": "multi", "q": t[0], "lines": t[1]})
-    return st.one_of(integer, decimal, single, single, multi, multi, multi)
+    return weighted((1, integer), (1, decimal), (2, single), (3, multi))
 
 
 def strategy(tier):
     d1 = st.fixed_dictionaries({"dir": st.just(1), "value": value_strategy(), "ctx": st.sampled_from(["exps_op", "exps_op", "ssbs_op", "menu", "casetext", "defaulttext", "template", "template", "flag"]),
                                 "depth": st.integers(0, 4), "pos": st.integers(0, 2)})
     d2 = st.fixed_dictionaries({"dir": st.just(2), "literal": literal_strategy(), "ctx": st.sampled_from(["arg", "lang", "menu", "msgcase", "posmark", "posmark_ssbs"]), "indent": st.integers(0, 3)})
-    return st.one_of(d1, d1, d2)
+    return weighted((2, d1), (1, d2))
 
 
 # --------------------------------------------------------------------------------------
